@@ -93,16 +93,46 @@ theorem pushBytes_self {b : Buf} {bs : List Nat} (h : Holds b bs) (hroom : b.cou
 
 /-- `(buffer/push b b)`: with the guard of buffer.c the result is defined and is `bs ++ bs`
     (the bytes read are the ones the buffer had before it grew). -/
+theorem extra_holds {b : Buf} {bs : List Nat} (h : Holds b bs) (n : Nat) :
+    Holds (extra b n) bs ∧ b.count + n ≤ (extra b n).data.length ∧ (extra b n).count = b.count := by
+  obtain ⟨h1, h2, h3⟩ := h
+  unfold extra
+  by_cases hc : b.count + n > b.data.length
+  · rw [if_pos hc]
+    refine ⟨⟨h1, ?_, ?_⟩, ?_, rfl⟩
+    · simp [realloc]; omega
+    · simp only [realloc]
+      rw [List.take_append_of_le_length h2]; exact h3
+    · simp [realloc]; omega
+  · rw [if_neg hc]; exact ⟨⟨h1, h2, h3⟩, by omega, rfl⟩
+
+/-- the same with the guard written with `janet_buffer_extra(buffer, view.len)` -/
+theorem pushSelf_guard_safe_extra {b : Buf} {bs : List Nat} (h : Holds b bs) :
+    ∃ b', pushSelf true b true = some b' ∧ Holds b' (bs ++ bs) := by
+  unfold pushSelf
+  simp only [if_true]
+  obtain ⟨he, hcap, hc⟩ := extra_holds h b.count
+  have := pushBytes_self he (by rw [hc]; exact hcap)
+  rw [hc] at this
+  exact this
+
 theorem pushSelf_guard_safe {b : Buf} {bs : List Nat} (h : Holds b bs) :
     ∃ b', pushSelf true b = some b' ∧ Holds b' (bs ++ bs) := by
   unfold pushSelf
-  simp only [if_true]
+  simp only [if_true, Bool.false_eq_true, if_false]
   obtain ⟨he, hcap⟩ := ensure_holds h (b.count + b.count) 2 (by omega)
   have hc : (ensure b (b.count + b.count) 2).count = b.count := by
     unfold ensure; split <;> simp [realloc]
   have := pushBytes_self he (by rw [hc]; exact hcap)
   rw [hc] at this
   exact this
+
+/-- either accepted shape of the guard is safe -/
+theorem pushSelf_guard_safe_any (viaExtra : Bool) {b : Buf} {bs : List Nat} (h : Holds b bs) :
+    ∃ b', pushSelf true b viaExtra = some b' ∧ Holds b' (bs ++ bs) := by
+  cases viaExtra with
+  | true => exact pushSelf_guard_safe_extra h
+  | false => exact pushSelf_guard_safe h
 
 /-- blit of a buffer into itself with the memmove branch: defined, and equal to the list-level definition computed from
     the contents *before* the call. -/
